@@ -425,109 +425,204 @@ def c19_hash_order_sensitive_use(F, rep):
 
 
 # ---------------------------------------------------------------- C04-R6 / C05-R8
+def assignment_dispatchers(items):
+    """{name: item} of the functions of a crate that build ASSIGNMENT kernels, recognised by what they do and not by what they are called: the first two parameters are `Value`s
+    (by the protocol of the assignment compilers: the target, then the right-hand side) and the body constructs kernel structs that have both a `sink` and a `source` field whose
+    `sink` is an operand handed in (a local, possibly cloned) - the read dispatchers also have `sink`/`source` kernels, but allocate the sink themselves."""
+    out = {}
+    for it in items:
+        if it["k"] != "fn" or not it.get("body"):
+            continue
+        ps = _fn_params(it)
+        if len(ps) < 2 or any(re.sub(r"\s", "", t) != "Value" for _, t in ps[:2]):
+            continue
+        for s_ in find(it["body"], "struct"):
+            f = {x[0]: x[1] for x in s_[2]}
+            if "sink" in f and "source" in f:
+                p = path_of(_peel(f["sink"]))
+                if p is not None and "::" not in p:
+                    out[it["name"]] = it
+                    break
+    return out
+
+
 def assign_compiler_operand_roles(F, rep, rule):
+    """Roles come from the protocol, never from the spelling of a local: in a `NativeFunctionCompiler::compile` that calls an assignment dispatcher (see above), whatever is bound
+    from element 0 of the argument-vector parameter is the sink operand and whatever is bound from element 1 the source operand (the order in which the statement evaluators build
+    the vector, C04-R7).  The roles are carried through `let`s, `if let`, `match` (tuple scrutinees position by position) and into helper functions of the crate (parameters bound
+    to the arguments), so the MutableReference fallback may be written as nested matches, `if let`, `or_else` closures or a private helper."""
+    from collections import defaultdict
     rep.rule(rule, "assignment compilers hand (sink, source) to their dispatcher in that order in every arm, including the MutableReference fallback arms "
                    "(a swapped pair writes INTO the right-hand variable and leaves the target unchanged)")
     n = 0
     for crate in ("mech_interpreter.lib", "mech_math.lib"):
-        for it in F.syn(crate):
+        items = F.syn(crate)
+        D = assignment_dispatchers(items)
+        fns = defaultdict(list)
+        for it in items:
+            if it["k"] == "fn" and it.get("body"):
+                fns[it["name"]].append(it)
+        reach_memo = {}
+
+        def callee(c):
+            """(kind, item): kind 'D' for a dispatcher call with (sink, source, ..) arguments, 'H' for a helper of the crate from which a dispatcher call is reachable (2 levels)"""
+            p = path_of(c[1])
+            if not p:
+                return None, None
+            nm = last_seg(p)
+            if nm in D and len(c[2]) >= 2:
+                return "D", D[nm]
+            hs = fns.get(nm, ())
+            if len(hs) == 1 and reaches(hs[0], 2):
+                return "H", hs[0]
+            return None, None
+
+        def reaches(h, depth):
+            k = (id(h), depth)
+            if k not in reach_memo:
+                reach_memo[k] = False
+                for c in find(h["body"], "call"):
+                    nm = last_seg(path_of(c[1]) or "")
+                    if (nm in D and len(c[2]) >= 2) or (depth > 1 and len(fns.get(nm, ())) == 1 and fns[nm][0] is not h and reaches(fns[nm][0], depth - 1)):
+                        reach_memo[k] = True
+                        break
+            return reach_memo[k]
+
+        for it in items:
             if not (it["k"] == "method" and it["name"] == "compile" and it["trait"] and last_seg(it["trait"]) == "NativeFunctionCompiler" and it.get("body")):
                 continue
-            role = {}
-            for st in find(it["body"], "let"):
-                if len(st) == 4 and st[2] is not None:
-                    pat = st[1][1] if st[1][0] == "ptype" else st[1]
-                    if pat[0] != "pident":
-                        continue
-                    txt = re.sub(r"\s", "", render(st[2]))
-                    m = re.match(r"^arguments\[(\d)\]", txt)
-                    if m and pat[1] in ("sink", "source"):
-                        role[pat[1]] = "sink" if m.group(1) == "0" else ("source" if m.group(1) == "1" else None)
-            if role.get("sink") != "sink" or role.get("source") != "source":
+            present = [c for c in find(it["body"], "call") if callee(c)[0]]
+            if not present:
                 continue
-            # names bound from exactly one of the two roles (`if let Value::MutableReference(sink_ref) = &sink`, `let s = sink.clone()`) inherit it
-            for _ in range(3):
-                for node in list(find(it["body"], "letc")) + [l for l in find(it["body"], "let") if len(l) == 4 and l[2] is not None]:
-                    rs = {role[x[1]] for x in find(node[2], "path") if x[1] in role and role[x[1]]}
-                    if len(rs) == 1:
-                        for b in find(node[1], "pident"):
-                            role.setdefault(b[1], next(iter(rs)))
-                for mnode in find(it["body"], "match"):
-                    if is_node(mnode[1]) and mnode[1][0] != "tuple":
-                        rs = {role[x[1]] for x in find(mnode[1], "path") if x[1] in role and role[x[1]]}
-                        if len(rs) == 1:
-                            for a in mnode[2]:
-                                for b in find(a[0], "pident"):
-                                    if not b[1][:1].isupper():
-                                        role.setdefault(b[1], next(iter(rs)))
             owner = X_type_head(it["self"])
+            ps = _fn_params(it)
+            argv = ps[0][0] if ps else None
+
+            def argv_role(e):
+                """sink / source when `e` is element 0 / 1 of the argument vector (cloned, borrowed ...), "" for another element, None otherwise"""
+                e = _peel(e)
+                if is_node(e) and e[0] == "index" and path_of(_peel(e[1])) == argv and _int_of(e[2]) is not None:
+                    return {0: "sink", 1: "source"}.get(_int_of(e[2]), "")
+                return None
+
+            established = {argv_role(x) for x in walk(it["body"])} if argv else set()
+            if not {"sink", "source"} <= established:
+                # the compiler does call an assignment dispatcher, but does not take its operands from argv[0] / argv[1] in a way the rule can read
+                n += len(present)
+                rep.note("undecided", {"rule": rule, "compiler": owner, "why": "calls an assignment dispatcher but its operands are not read as elements 0 and 1 of the argument vector: roles not decided"})
+                continue
+            seq = defaultdict(int)
 
             def roles_of(e, env):
-                return {env[x[1]] for x in find(e, "path") if x[1] in env and env[x[1]]}
+                return {env[x[1]] for x in find(e, "path") if env.get(x[1])}
 
-            def check_calls(node, env):
+            def bind(pat, init, env):
+                """bind the names of `pat` from `init`"""
+                pat = pat[1] if is_node(pat) and pat[0] == "ptype" else pat
+                if not is_node(pat):
+                    return
+                if pat[0] == "ptuple" and is_node(init) and _peel(init)[0] == "tuple" and len(pat[1]) == len(_peel(init)[1]):
+                    for sp, se in zip(pat[1], _peel(init)[1]):
+                        bind(sp, se, env)
+                    return
+                r = argv_role(init) if init is not None else None
+                if r is None:
+                    rs = roles_of(init, env) if init is not None else set()
+                    r = next(iter(rs)) if len(rs) == 1 else ""
+                for b in find(pat, "pident"):
+                    if not b[1][:1].isupper():
+                        env[b[1]] = r or None
+
+            def check(c, d, env):
                 nonlocal n
-                for c in find(node, "call"):
-                    p = path_of(c[1]) or ""
-                    if not re.search(r"impl_\w+_fxn$", p) or len(c[2]) < 2:
-                        continue
-                    n += 1
-                    r0, r1 = roles_of(c[2][0], env), roles_of(c[2][1], env)
-                    ok = r0 == {"sink"} and r1 == {"source"}
-                    rep.check(ok, rule, "%s:%s#%d" % (owner, p.split("::")[-1], n),
-                              "%s::compile calls `%s` with (%s, %s) in the (sink, source) positions: the assignment writes into the wrong operand" % (
-                                  owner, render(c)[:90], "/".join(sorted(r0)) or "?", "/".join(sorted(r1)) or "?"), "%s (%s)" % (owner, crate),
-                              sample={"compiler": owner, "call": render(c)[:100]})
-
-            def walk_arms(node, env):
-                # calls outside any role-tuple match
-                handled = []
-                for m in find(node, "match"):
-                    sc = m[1]
-                    if is_node(sc) and sc[0] == "tuple":
-                        comp_roles = []
-                        for comp in sc[1]:
-                            rs = roles_of(comp, env)
-                            comp_roles.append(next(iter(rs)) if len(rs) == 1 else None)
-                        if any(comp_roles):
-                            handled.append(m)
-                            for a in m[2]:
-                                env2 = dict(env)
-                                alts = a[0][1] if a[0][0] == "por" else [a[0]]
-                                for alt in alts:
-                                    if alt[0] == "ptuple" and len(alt[1]) == len(comp_roles):
-                                        for comp, r in zip(alt[1], comp_roles):
-                                            for b in find(comp, "pident"):
-                                                env2[b[1]] = r
-                                check_calls(a[2], env2)
-                inside = set()
-                for m in handled:
-                    for x in walk(m):
-                        inside.add(id(x))
-                for c in find(node, "call"):
-                    if id(c) in inside:
-                        continue
-                    check_calls(["expr", c, False] if False else c, env) if False else None
-                # top-level calls (not in a handled match)
-                for c in find(node, "call"):
-                    if id(c) in inside:
-                        continue
-                    p = path_of(c[1]) or ""
-                    if re.search(r"impl_\w+_fxn$", p) and len(c[2]) >= 2:
-                        nonlocal_n_check(c, env)
-
-            def nonlocal_n_check(c, env):
-                nonlocal n
-                p = path_of(c[1]) or ""
                 n += 1
+                nm = d["name"]
+                seq[nm] += 1
                 r0, r1 = roles_of(c[2][0], env), roles_of(c[2][1], env)
                 ok = r0 == {"sink"} and r1 == {"source"}
-                rep.check(ok, rule, "%s:%s#%d" % (owner, p.split("::")[-1], n),
-                          "%s::compile calls `%s` with (%s, %s) in the (sink, source) positions: the assignment writes into the wrong operand" % (
-                              owner, render(c)[:90], "/".join(sorted(r0)) or "?", "/".join(sorted(r1)) or "?"), "%s (%s)" % (owner, crate),
-                          sample={"compiler": owner, "call": render(c)[:100]})
-            walk_arms(it["body"], dict(role))
-    rep.floor(rule, "dispatcher calls in assignment compilers", n, 20)
+                pending.append((bool(r0 or r1), (ok, rule, "%s:%s#%d" % (owner, nm, seq[nm]),
+                                "%s::compile calls `%s` with (%s, %s) in the (sink, source) positions: the assignment writes into the wrong operand" % (
+                                    owner, render(c)[:90], "/".join(sorted(r0)) or "?", "/".join(sorted(r1)) or "?"), "%s (%s)" % (owner, crate)),
+                                {"compiler": owner, "call": render(c)[:100]}))
+
+            def visit(x, env, depth):
+                if isinstance(x, dict):
+                    for v in x.values():
+                        visit(v, env, depth)
+                    return
+                if not isinstance(x, list):
+                    return
+                if is_node(x):
+                    t = x[0]
+                    if t in ("block", "unsafe"):
+                        env = dict(env)
+                        for st in x[1]:
+                            visit(st, env, depth)
+                        return
+                    if t == "let" and len(x) >= 3:
+                        visit(x[2], env, depth)
+                        if len(x) > 3:
+                            visit(x[3], dict(env), depth)
+                        bind(x[1], x[2], env)
+                        return
+                    if t == "letc":
+                        visit(x[2], env, depth)
+                        bind(x[1], x[2], env)
+                        return
+                    if t == "if":
+                        env_then = dict(env)
+                        visit(x[1], env_then, depth)          # an `if let` binds for the then-branch only
+                        for st in x[2]:
+                            visit(st, env_then, depth)
+                        if x[3] is not None:
+                            visit(x[3], dict(env), depth)
+                        return
+                    if t == "match":
+                        sc = x[1]
+                        visit(sc, env, depth)
+                        comps = _peel(sc)[1] if is_node(_peel(sc)) and _peel(sc)[0] == "tuple" else None
+                        for a in x[2]:
+                            env2 = dict(env)
+                            for alt in (a[0][1] if a[0][0] == "por" else [a[0]]):
+                                if comps is not None and alt[0] == "ptuple" and len(alt[1]) == len(comps):
+                                    for sp, se in zip(alt[1], comps):
+                                        bind(sp, se, env2)
+                                else:
+                                    bind(alt, sc, env2)
+                            visit(a[1], env2, depth)
+                            visit(a[2], env2, depth)
+                        return
+                    if t == "closure":
+                        env = dict(env)
+                        for p_ in x[1]:
+                            bind(p_, None, env)
+                        visit(x[2], env, depth)
+                        return
+                    if t == "call":
+                        kind, d = callee(x)
+                        if kind == "D":
+                            check(x, d, env)
+                        elif kind == "H" and depth < 2:
+                            env_h = {}
+                            for (pn, _pt), a in zip(_fn_params(d), x[2]):
+                                rs = roles_of(a, env)
+                                env_h[pn] = next(iter(rs)) if len(rs) == 1 else None
+                            for st in d["body"]:
+                                visit(st, env_h, depth + 1)
+                for y in x:
+                    visit(y, env, depth)
+
+            env0 = {}
+            pending = []
+            for st in it["body"]:
+                visit(st, env0, 0)
+            if pending and not any(known for known, _, _ in pending):
+                # elements 0 and 1 of the argument vector are read, but no operand of any dispatcher call could be traced back to them
+                rep.note("undecided", {"rule": rule, "compiler": owner, "why": "the operands of its dispatcher calls could not be traced to elements 0 / 1 of the argument vector: roles not decided"})
+                continue
+            for _, args, sample in pending:
+                rep.check(*args, sample=sample)
+    rep.floor(rule, "dispatcher calls in assignment compilers", n, 60)
 
 
 def X_type_head(t):
@@ -774,104 +869,264 @@ def c17_state_set_from_arms(F, rep):
 
 
 # ---------------------------------------------------------------- subscript operands keep their position (C03-R7 / C04-R7)
+def _peel(e):
+    """strip what does not change which value an expression denotes: `&`, `&mut`, `*`, `?`, and clone / borrow / to_owned style method calls"""
+    while is_node(e):
+        if e[0] == "ref" or (e[0] == "un" and e[1] == "*"):
+            e = e[2]
+        elif e[0] == "try":
+            e = e[1]
+        elif e[0] == "mcall" and e[2] in ("clone", "to_owned", "borrow", "borrow_mut", "as_ref", "as_mut", "unwrap", "to_vec", "as_slice", "as_mut_slice") and len(e[4]) <= 0:
+            e = e[1]
+        elif e[0] == "block" and len(e[1]) == 1 and e[1][0][0] == "expr":
+            e = e[1][0][1]
+        else:
+            break
+    return e
+
+
+def _fn_params(it):
+    """[(name, type)] of the identifier parameters of a syn fn / method item (the receiver is skipped)"""
+    out = []
+    for p_ in it["sig"]["inputs"]:
+        if is_node(p_[0]):
+            pat = p_[0][1] if p_[0][0] == "ptype" else p_[0]
+            if pat[0] == "pident":
+                out.append((pat[1], p_[1] if len(p_) > 1 else ""))
+    return out
+
+
+def _block_stmts(e):
+    """statement list of an expression used as a body (a block, or a single expression)"""
+    if is_node(e) and e[0] in ("block", "unsafe"):
+        return e[1]
+    return [["expr", e]]
+
+
+def _int_of(e):
+    if is_node(e) and e[0] == "int":
+        m = re.match(r"\d+", str(e[1]))
+        return int(m.group(0)) if m else None
+    return None
+
+
 def subscript_operand_positions(F, rep, rule, fn_rx, floor):
-    """In every `match &subs[..] { [A(i1), B(i2)] => .. }` arm, the j-th index operand pushed to the kernel compiler's input is evaluated from the j-th subscript."""
+    """In every `match <subscript list> { [A(i1), B(i2)] => .. }` arm, the j-th index operand put into the kernel compiler's argument vector is evaluated from the j-th subscript.
+
+    Nothing is recognised by the spelling of a local.  The subscript list is whatever local the scrutinee of the slice-pattern match over `Subscript::..` patterns names; the
+    argument vector is whatever local is handed to a `.compile(..)` call; the indexed value / right-hand side are the dispatcher's `&Value` parameters.  The dispatcher match is
+    looked for in the named entry function and in the private helpers of the same module it calls (two levels), and inside an arm a call to a helper of the crate that receives
+    the argument vector is analysed as its body with the parameters bound to the arguments - extracting an arm, or the evaluate-and-push step of an arm, into a function changes nothing."""
+    from collections import defaultdict
+    from lib.facts import strip_refs
     rep.rule(rule, "index operands keep their position: in each arm of the subscript dispatcher the j-th index value pushed to the compiler input is evaluated from `subs[j]` "
                    "(or is Value::IndexAll exactly where the j-th subscript is `:`) - evaluating one subscript twice, or exchanging them, addresses another block")
-    n = 0
-    for it in F.syn("mech_interpreter.lib"):
-        if it["k"] != "fn" or not re.search(fn_rx, it["name"]) or not it.get("body"):
-            continue
-        for m in find(it["body"], "match"):
-            if not re.search(r"subs\s*\[\s*\.\.\s*\]|subs\[\.\.\]", render(m[1]).replace(" ", "")):
+    crate = "mech_interpreter.lib"
+    fns = defaultdict(list)
+    for it in F.syn(crate):
+        if it["k"] == "fn" and it.get("body"):
+            fns[it["name"]].append(it)
+    PUSHES = ("push", "extend", "extend_from_slice", "append", "insert")
+
+    def local_fn(call, mod=None):
+        p = path_of(call[1])
+        if not p:
+            return None
+        cands = [h for h in fns.get(last_seg(p), ()) if mod is None or h["mod"] == mod]
+        return cands[0] if len(cands) == 1 else None
+
+    def cls(e, env, ctx):
+        """provenance class of an expression: ("IDX", j) evaluated from the j-th subscript, ("ALL",) the IndexAll marker, ("SRC",) the indexed value / right-hand side, None unknown"""
+        if not is_node(e):
+            return None
+        for x in walk(e):
+            if x[0] == "index" and path_of(_peel(x[1])) in ctx["subs"] and _int_of(x[2]) is not None:
+                return ("IDX", _int_of(x[2]))
+            if x[0] == "mcall" and path_of(_peel(x[1])) in ctx["subs"]:
+                if x[2] == "first" and not x[4]:
+                    return ("IDX", 0)
+                if x[2] in ("get", "get_unchecked") and len(x[4]) == 1 and _int_of(x[4][0]) is not None:
+                    return ("IDX", _int_of(x[4][0]))
+        src = False
+        for x in walk(e):
+            if x[0] == "path":
+                if x[1].endswith("IndexAll"):
+                    return ("ALL",)
+                if x[1] in ctx["binders"]:
+                    return ("IDX", ctx["binders"][x[1]])
+                c = env.get(x[1])
+                if c is not None and c != ("SRC",):
+                    return c
+                if c == ("SRC",) or (x[1] in ctx["src"] and x[1] not in env):
+                    src = True
+        return ("SRC",) if src else None
+
+    def vec_of(e, ctx):
+        p = path_of(_peel(e))
+        return p if p in ctx["vecs"] else None
+
+    def inline_target(e, ctx):
+        """a call, anywhere in `e`, to a function of this crate that is handed the argument vector: (call node, callee item)"""
+        for c in walk(e):
+            if c[0] == "call" and any(vec_of(a, ctx) for a in c[2]):
+                h = local_fn(c)
+                if h is not None:
+                    return c, h
+        return None
+
+    def seqs(stmts, env, acc, ctx, depth=0):
+        """all sequences (lists of classes) the argument vector can hold after `stmts`, one per path"""
+        accs = [list(acc)]
+        for st in stmts:
+            if not is_node(st):
                 continue
-            for arm in m[2]:
-                p = arm[0]
-                if p[0] != "pslice":
-                    continue
-                kinds = []
-                binders = {}
-                for j, sp in enumerate(p[1]):
-                    t = render_pat(sp)
-                    mm = re.search(r"Subscript::(\w+)", t)
-                    kinds.append(mm.group(1) if mm else "?")
-                    for b in find(sp, "pident"):
-                        binders[b[1]] = j
-                body = arm[2][1] if is_node(arm[2]) and arm[2][0] == "block" else [["expr", arm[2]]]
+            e = st[2] if st[0] == "let" and len(st) > 2 else (st[1] if st[0] == "expr" else None)
+            if not is_node(e):
+                continue
+            tgt = inline_target(e, ctx) if depth < 2 else None
+            if tgt is not None:
+                c, h = tgt
+                ctx["visited"].add(id(c))
+                ctx2 = {"subs": set(), "vecs": set(), "src": set(), "binders": {}, "visited": ctx["visited"], "more": ctx["more"]}
+                env2 = {}
+                for (pn, _pt), a in zip(_fn_params(h), c[2]):
+                    base = path_of(_peel(a))
+                    if base in ctx["vecs"]:
+                        ctx2["vecs"].add(pn)
+                    elif base in ctx["subs"] and base not in env:
+                        ctx2["subs"].add(pn)
+                    else:
+                        env2[pn] = cls(a, env, ctx)
+                ctx["more"].append(h["body"])
+                new = []
+                for a in accs:
+                    new += seqs(h["body"], dict(env2), a, ctx2, depth + 1)
+                accs = new or accs
+            if st[0] == "let":
+                names = [b[1] for b in find(st[1], "pident")]
+                pops = [x for x in walk(e) if x[0] == "mcall" and x[2] == "pop" and vec_of(x[1], ctx)]
+                if pops:
+                    ctx["visited"].add(id(pops[0]))
+                    for a in accs:
+                        v = a.pop() if a else None
+                        for nm in names:
+                            env[nm] = v
+                elif len(names) == 1 and names[0] in ctx["vecs"] and tgt is None:
+                    # the argument vector (re)built from a literal: `vec![a, b, c]` / `[a, b, c]` / `Vec::new()`
+                    arr = next((x for x in walk(e) if x[0] == "array"), None)
+                    empty = any(x[0] == "call" and re.search(r"(^|::)Vec(::<.*>)?::(new|with_capacity)$", path_of(x[1]) or "") for x in walk(e))
+                    accs = [[cls(x, env, ctx) for x in arr[1]] if arr is not None else ([] if empty else [None]) for _ in accs]
+                else:
+                    c = cls(e, env, ctx)
+                    for nm in names:
+                        env[nm] = c
+            elif e[0] == "assign" and vec_of(e[1], ctx) and tgt is None:
+                # `v = vec![a, b, c]`: the same rebuild as an assignment
+                arr = next((x for x in walk(e[2]) if x[0] == "array"), None)
+                accs = [[cls(x, env, ctx) for x in arr[1]] if arr is not None else [None] for _ in accs]
+            elif e[0] == "mcall" and e[2] in PUSHES and vec_of(e[1], ctx) and e[4]:
+                ctx["visited"].add(id(e))
+                if e[2] == "push":
+                    items = [e[4][0]]
+                elif e[2] in ("extend", "extend_from_slice") and is_node(_peel(e[4][0])) and _peel(e[4][0])[0] == "array":
+                    items = list(_peel(e[4][0])[1])
+                else:
+                    items = None            # insert / append / extend from an iterator: not modelled
+                for a in accs:
+                    if items is None:
+                        a.append(None)
+                    else:
+                        a.extend(cls(x, env, ctx) for x in items)
+            elif e[0] == "if":
+                new = []
+                for a in accs:
+                    new += seqs(e[2], dict(env), a, ctx, depth)
+                    if e[3] is not None:
+                        new += seqs(_block_stmts(e[3]), dict(env), a, ctx, depth)
+                    else:
+                        new.append(list(a))
+                accs = new
+            elif e[0] == "match":
+                new = []
+                for a in accs:
+                    for ar in e[2]:
+                        new += seqs(_block_stmts(ar[2]), dict(env), a, ctx, depth)
+                accs = new or accs
+            elif e[0] in ("block", "unsafe"):
+                new = []
+                for a in accs:
+                    new += seqs(e[1], env, a, ctx, depth)
+                accs = new or accs
+        return accs
 
-                def cls(e, env):
-                    """provenance class of an expression"""
-                    if not is_node(e):
-                        return None
-                    for x in walk(e):
-                        if x[0] == "index" and is_node(x[1]) and x[1][0] == "path" and x[1][1] == "subs" and is_node(x[2]) and x[2][0] == "int":
-                            return ("IDX", int(re.sub(r"\D.*$", "", str(x[2][1]))))
-                    for x in walk(e):
-                        if x[0] == "path":
-                            if x[1].endswith("IndexAll"):
-                                return ("ALL",)
-                            if x[1] in binders:
-                                return ("IDX", binders[x[1]])
-                            if x[1] in env and env[x[1]] is not None:
-                                return env[x[1]]
-                    for x in walk(e):
-                        if x[0] == "path" and x[1] in ("source", "val", "sink", "value"):
-                            return ("SRC",)
-                    return None
+    def dispatcher_matches(it):
+        """(match node, names of the subscript list) for every match whose arms are slice patterns over Subscript variants"""
+        for m in find(it["body"], "match"):
+            if any(a[0][0] == "pslice" and any("Subscript::" in render_pat(sp) for sp in a[0][1]) for a in m[2]):
+                names = {x[1] for x in find(m[1], "path") if "::" not in x[1]}
+                yield m, names
 
-                def seqs(stmts, env, acc):
-                    """all push sequences (lists of classes) over the paths through stmts"""
-                    accs = [list(acc)]
-                    for st in stmts:
-                        if st[0] == "let" and len(st) > 2 and st[2] is not None:
-                            is_pop = any(x[0] == "mcall" and x[2] == "pop" and render(x[1]) == "fxn_input" for x in walk(st[2]))
-                            names = [b[1] for b in find(st[1], "pident")]
-                            if is_pop:
-                                for a in accs:
-                                    v = a.pop() if a else None
-                                    for nm in names:
-                                        env[nm] = v
-                            else:
-                                c = cls(st[2], env)
-                                for nm in names:
-                                    env[nm] = c
-                        elif st[0] == "expr" and is_node(st[1]):
-                            e = st[1]
-                            if e[0] == "mcall" and e[2] == "push" and render(e[1]) == "fxn_input" and e[4]:
-                                c = cls(e[4][0], env)
-                                for a in accs:
-                                    a.append(c)
-                            elif e[0] == "if":
-                                new = []
-                                for a in accs:
-                                    new += seqs(e[2], dict(env), a)
-                                    if e[3] is not None:
-                                        eb = e[3][1] if e[3][0] in ("block",) else [["expr", e[3]]]
-                                        new += seqs(eb, dict(env), a)
-                                    else:
-                                        new.append(list(a))
-                                accs = new
-                            elif e[0] == "match":
-                                new = []
-                                for a in accs:
-                                    for ar in e[2]:
-                                        ab = ar[2][1] if is_node(ar[2]) and ar[2][0] == "block" else [["expr", ar[2]]]
-                                        new += seqs(ab, dict(env), a)
-                                accs = new or accs
-                    return accs
-                all_seqs = seqs(body, {}, [])
-                uniq = {tuple(c for c in s_ if c is not None and c[0] in ("IDX", "ALL")) for s_ in all_seqs}
-                uniq = {u for u in uniq if u}
-                if not uniq:
-                    continue
-                n += 1
-                want = tuple(("ALL",) if k == "All" else ("IDX", j) for j, k in enumerate(kinds))
-                bad = sorted(u for u in uniq if u != want)
-                key = "%s:[%s]" % (it["name"], ",".join(kinds))
-                show = lambda u: [("subs[%d]" % c[1]) if c[0] == "IDX" else ":" for c in u]
-                rep.check(not bad, rule, key if not bad else key + ":operands=" + "/".join(show(bad[0])),
-                          "%s, arm [%s]: the index operands handed to the kernel compiler are %s, expected %s - the assignment / read addresses rows and columns taken from the wrong subscript" % (
-                              it["name"], ", ".join(kinds), show(bad[0]) if bad else "", show(want)), "%s (mech_interpreter.lib)" % it["name"], sample={"fn": it["name"], "arm": kinds, "operands": [show(u) for u in sorted(uniq)]})
+    n = 0
+    for root in F.syn(crate):
+        if root["k"] != "fn" or not re.search(fn_rx, root["name"]) or not root.get("body"):
+            continue
+        # the entry function and the private helpers of its module it calls (two levels): the dispatcher match may have been moved into one of them
+        todo, seen, scope = [(root, 0)], set(), []
+        while todo:
+            it, d = todo.pop(0)
+            if id(it) in seen:
+                continue
+            seen.add(id(it))
+            scope.append(it)
+            if d < 2:
+                for c in find(it["body"], "call"):
+                    h = local_fn(c, root["mod"])
+                    if h is not None and h.get("vis", "") != "pub" and not re.search(fn_rx, h["name"]):
+                        todo.append((h, d + 1))
+        for it in scope:
+            vecs = {path_of(_peel(a)) for mc in find(it["body"], "mcall") if mc[2] == "compile" for a in mc[4]} - {None}
+            srcs = {pn for pn, pt in _fn_params(it) if re.sub(r"[&\s]|mut\b|'\w+", "", pt) == "Value"}
+            for m, subs_names in dispatcher_matches(it):
+                for arm in m[2]:
+                    p = arm[0]
+                    if p[0] != "pslice":
+                        continue
+                    kinds = []
+                    binders = {}
+                    for j, sp in enumerate(p[1]):
+                        mm = re.search(r"Subscript::(\w+)", render_pat(sp))
+                        kinds.append(mm.group(1) if mm else "?")
+                        for b in find(sp, "pident"):
+                            binders[b[1]] = j
+                    ctx = {"subs": set(subs_names), "vecs": set(vecs), "src": set(srcs), "binders": binders, "visited": set(), "more": []}
+                    all_seqs = seqs(_block_stmts(arm[2]), {}, [], ctx)
+                    # what the walk above could not follow: the vector filled inside a loop / closure / initialiser, or handed to something that is not a function of this crate
+                    unmodelled = []
+                    for bdy in [arm[2]] + ctx["more"]:
+                        for x in walk(bdy):
+                            if id(x) in ctx["visited"]:
+                                continue
+                            if x[0] == "mcall" and x[2] in PUSHES + ("pop",) and path_of(_peel(x[1])) in (ctx["vecs"] | vecs):
+                                unmodelled.append(render(x)[:80])
+                            elif x[0] == "call" and any(is_node(a) and a[0] == "ref" and a[1] and path_of(_peel(a)) in ctx["vecs"] for a in x[2]):
+                                unmodelled.append(render(x)[:80])
+                    unknown = any(c is None for s_ in all_seqs for c in s_)
+                    uniq = {tuple(c for c in s_ if c is not None and c[0] in ("IDX", "ALL")) for s_ in all_seqs}
+                    uniq = {u for u in uniq if u}
+                    if not uniq and not unknown and not unmodelled:
+                        continue
+                    n += 1
+                    key = "%s:[%s]" % (root["name"], ",".join(kinds))
+                    if unknown or unmodelled:
+                        rep.note("undecided", {"rule": rule, "arm": key, "why": "the argument vector is filled in a way the rule does not model (%s): operand positions not decided" % (
+                            "; ".join(unmodelled[:3]) or "an operand of unknown provenance")})
+                        continue
+                    want = tuple(("ALL",) if k == "All" else ("IDX", j) for j, k in enumerate(kinds))
+                    bad = sorted(u for u in uniq if u != want)
+                    show = lambda u: [("subs[%d]" % c[1]) if c[0] == "IDX" else ":" for c in u]
+                    rep.check(not bad, rule, key if not bad else key + ":operands=" + "/".join(show(bad[0])),
+                              "%s, arm [%s]: the index operands handed to the kernel compiler are %s, expected %s - the assignment / read addresses rows and columns taken from the wrong subscript" % (
+                                  root["name"], ", ".join(kinds), show(bad[0]) if bad else "", show(want)), "%s (mech_interpreter.lib)" % root["name"], sample={"fn": root["name"], "arm": kinds, "operands": [show(u) for u in sorted(uniq)]})
     rep.floor(rule, "subscript dispatcher arms with index operands", n, floor)
 
 
